@@ -28,7 +28,7 @@ func init() {
 var profC14Seq = Profile{
 	MaxBars: 6, MinBars: 1, MaxSteps: 35, Refresh: []string{"manual", "autoinj", "autort", "none"}, QLens: []int{-1, -1, 0, -2},
 	Pop: 25, Queue: 15, Prio: true, Ext: 10, Text: 1, Rm: 25, NoPop: 15, AbortW: 2, TicksW: 8,
-	SyncDecors: 1, PlainDecors: 2, Wraps: true, Listeners: 60, EwmaPct: 30, Delay: 20, Notifier: 60, Fillers: []string{"tag", "bar"}, LateAdd: true, Cancel: 85,
+	SyncDecors: 1, PlainDecors: 2, Wraps: true, Listeners: 60, EwmaPct: 30, DisabledPct: 8, Delay: 20, Notifier: 60, Fillers: []string{"tag", "bar"}, LateAdd: true, Cancel: 85,
 }
 
 var profC14Conc = ConcProfile{
@@ -110,7 +110,7 @@ func runC14(ci interface{}) Result {
 			continue
 		}
 		for di, d := range b.Decors {
-			if !d.Listener {
+			if !d.Listener || d.Disabled {
 				continue
 			}
 			nListeners++
@@ -200,6 +200,18 @@ func runC14(ci interface{}) Result {
 				return r
 			}
 			r.Classes = append(r.Classes, "notifier-exact")
+		}
+	}
+	if sc.Cfg.Delay && sc.Cfg.PtyRows == 0 {
+		released := false
+		for _, e := range tr.Events {
+			if e.Point == "client.release" {
+				released = true
+			}
+		}
+		if cancelled && !released && len(tr.Chunks) > 0 {
+			r.Err, r.Kind = fmt.Errorf("the render delay never ended (container cancelled first) but %d chunk(s) were written: %q", len(tr.Chunks), tr.Chunks[0].Data), "output-before-delay-ended"
+			return r
 		}
 	}
 	if cancelled {
